@@ -255,6 +255,13 @@ BENIGN = [
     ("benign-pow-exponent-guarded-cast", "C01", "crates/runtime/src/types/number.rs",
      [("                } else if let Ok(exponent) = u32::try_from(b) {\n                    I64(a.wrapping_pow(exponent))\n                } else {",
        "                } else if b <= u32::MAX as i64 {\n                    I64(a.wrapping_pow(b as u32))\n                } else {")]),
+    ("benign-unpack-once-zero-passed-by-forwarder", "C06", "crates/runtime/src/vm.rs",
+     [("        info.packed_arg_count = 0;\n\n        Ok(())", "        Ok(())"),
+      ("                    CallInfo {\n                        instance: Some(info.frame_base),\n                        ..info\n                    },",
+       "                    CallInfo {\n                        instance: Some(info.frame_base),\n                        packed_arg_count: 0,\n                        ..info\n                    },")]),
+    ("benign-barrier-frame-greater-than", "C17", "crates/runtime/src/vm.rs",
+     [("        let result = if self.call_stack.len() == old_frame_count {\n            // If the call stack is the same size, then a native function was called and the result\n            // will be in the result register\n            Ok(self.clone_register(result_register))\n        } else {",
+       "        let result = if self.call_stack.len() <= old_frame_count {\n            // If the call stack is the same size, then a native function was called and the result\n            // will be in the result register\n            Ok(self.clone_register(result_register))\n        } else {")]),
     ("benign-read-line-trim-end", "C06", "crates/runtime/src/core_lib/io.rs",
      [("                    let line = result.strip_suffix('\\n').unwrap_or(&result);\n                    line.strip_suffix('\\r').unwrap_or(line).into()",
        "                    let newline_bytes = if result.ends_with(\"\\r\\n\") {\n                        2\n                    } else if result.ends_with('\\n') {\n                        1\n                    } else {\n                        0\n                    };\n                    result[..result.len() - newline_bytes].into()")]),
